@@ -11,6 +11,7 @@ import Fca.Model.Layout
 import Fca.Model.Mover
 import Fca.Lemmas.Mover
 import Fca.Lemmas.MoverShift
+import Fca.Lemmas.MoverSortedOps
 import Fca.Lemmas.Layout
 import Fca.Lemmas.Fcart
 import Fca.Lemmas.LevelsTotal
@@ -329,6 +330,137 @@ theorem mover_levels_invariant (m : St) (hw : WF m) (hb : Bij m) (ops : List Op)
   exact ⟨run_wf ops m hw, run_bij ops m hw hb, hd, by simp only [St.n, hl], hl, hpl, fun j => levelCoord_congr hl hpl j,
     fun j hj => run_other ops m j hj⟩
 
+/-- `Sorted`: within every level the peer coordinates strictly increase along the rank order.  It is
+    established by loading pairwise distinct positions (both orientations) and preserved by every
+    operation — swap, shift, jitter in all three branches (border, order-preserving, overtaking),
+    place — hence by every history (failed operations leave the state unchanged). -/
+theorem mover_sorted_invariant :
+    (∀ (d : Dir) (value : List (Rat × Rat)), value ≠ [] → value.Nodup →
+      ∃ m, setPos d value = .ok m ∧ WF m ∧ Bij m ∧ Sorted m ∧ getPos m = value) ∧
+    (∀ (m m' : St) (o : Op), WF m → Bij m → Sorted m → step m o = .ok m' → WF m' ∧ Bij m' ∧ Sorted m') ∧
+    (∀ (m : St) (ops : List Op), WF m → Bij m → Sorted m →
+      WF (run m ops) ∧ Bij (run m ops) ∧ Sorted (run m ops)) := by
+  refine ⟨?_, ?_, ?_⟩
+  · intro d value hne hnd
+    obtain ⟨m, hm, hw, hb, _, hg⟩ := mover_roundtrip d value hne
+    refine ⟨m, hm, hw, hb, ?_, hg⟩
+    have hE : value.isEmpty = false := by cases value <;> simp_all
+    simp only [setPos, hE] at hm
+    cases hm
+    exact loadState_sorted d _ (nodup_map_orient d hnd)
+  · intro m m' o hw hb hs h
+    exact ⟨step_wf hw h, step_bij hw hb h, step_sorted hw hb hs h⟩
+  · intro m ops hw hb hs
+    exact ⟨run_wf ops m hw, run_bij ops m hw hb, run_sorted ops m hw hb hs⟩
+
+/-- In a `Sorted` state ranks are geometric: among the peers of a level, smaller rank ⇔ smaller peer
+    coordinate, and a node's coordinate is slot `rank` of the ascending coordinate list of its level
+    (each slot being taken by exactly one peer, `Bij`). -/
+theorem mover_rank_geometric (m : St) (hw : WF m) (hb : Bij m) (hs : Sorted m) :
+    (∀ l, (m.row l).Pairwise (· < ·)) ∧
+    (∀ j, m.peerCoord j = (m.row (m.lvl j)).getD (m.ord j) 0) ∧
+    (∀ a b, a < m.n → b < m.n → m.lvl a = m.lvl b → (m.ord a < m.ord b ↔ m.peerCoord a < m.peerCoord b)) ∧
+    (∀ l r, l < m.posPeers.length → r < (m.row l).length → ∃ el, el < m.n ∧ m.lvl el = l ∧ m.ord el = r ∧
+      ∀ el', el' < m.n → m.lvl el' = l → m.ord el' = r → el' = el) := by
+  refine ⟨hs, fun _ => rfl, fun a b ha hb' hl => rank_geometric hw hs ha hb' hl, ?_⟩
+  intro l r hl hr
+  obtain ⟨el, h1, h2, h3⟩ := hb.surj l r hl hr
+  exact ⟨el, h1, h2, h3, fun el' h1' h2' h3' => hb.inj el' el h1' h1 (h2'.trans h2.symm) (h3'.trans h3.symm)⟩
+
+/-- `shift_node(i, k)` read geometrically: in a `Sorted` state (before and after — the level's ascending
+    coordinate list `row` is not touched) node `i`, which sits at slot `p` of `row`, ends exactly `k`
+    places further right among its peers ordered by their actual coordinates (clamped at the ends of the
+    row): at `row[p + min(k, len-1-p)]` resp. `row[p - min(|k|, p)]`; every peer lying strictly between
+    the old and the new place of `i` (new place included) moves to the neighbouring slot on the other
+    side, every other node keeps its coordinate; the level's coordinates are reused. -/
+theorem mover_shift_geometric (m : St) (hw : WF m) (hb : Bij m) (hs : Sorted m) (i : Nat) (k : Int) (hi : i < m.n) :
+    ∃ m', shiftNode m i k = .ok m' ∧ WF m' ∧ Bij m' ∧ Sorted m' ∧ (∀ l, m'.row l = m.row l) ∧
+      (∀ a b, a < m.n → b < m.n → m.lvl a = m.lvl b →
+        ((m.ord a < m.ord b ↔ m.peerCoord a < m.peerCoord b) ∧
+         (m'.ord a < m'.ord b ↔ m'.peerCoord a < m'.peerCoord b))) ∧
+      (0 ≤ k →
+        let row := m.row (m.lvl i)
+        let t := min k.natAbs (row.length - (m.ord i + 1))
+        m'.peerCoord i = row.getD (m.ord i + t) 0 ∧
+        ∀ j, j < m.n → m.lvl j = m.lvl i →
+          (m.peerCoord i < m.peerCoord j → m.peerCoord j ≤ row.getD (m.ord i + t) 0 →
+              m'.peerCoord j = row.getD (m.ord j - 1) 0) ∧
+          (m.peerCoord j < m.peerCoord i ∨ row.getD (m.ord i + t) 0 < m.peerCoord j →
+              m'.peerCoord j = m.peerCoord j)) ∧
+      (k < 0 →
+        let row := m.row (m.lvl i)
+        let t := min k.natAbs (m.ord i)
+        m'.peerCoord i = row.getD (m.ord i - t) 0 ∧
+        ∀ j, j < m.n → m.lvl j = m.lvl i →
+          (row.getD (m.ord i - t) 0 ≤ m.peerCoord j → m.peerCoord j < m.peerCoord i →
+              m'.peerCoord j = row.getD (m.ord j + 1) 0) ∧
+          (m.peerCoord j < row.getD (m.ord i - t) 0 ∨ m.peerCoord i < m.peerCoord j →
+              m'.peerCoord j = m.peerCoord j)) := by
+  obtain ⟨m', h, hw', hb', hn, hpp, _, hl, hpc, _, _, hR, hL⟩ := mover_shift m hw hb i k hi
+  have hs' : Sorted m' := shift_sorted hs h
+  have hlvl : ∀ el, m'.lvl el = m.lvl el := by intro el; simp only [St.lvl, hl]
+  have hrow : ∀ l, m'.row l = m.row l := by intro l; simp only [St.row, hpp]
+  have hp := hw.ord_lt i hi
+  -- comparing a peer coordinate with a slot of the row = comparing ranks
+  have hcmp : ∀ j, j < m.n → m.lvl j = m.lvl i → ∀ q, q < (m.row (m.lvl i)).length →
+      ((m.peerCoord j < (m.row (m.lvl i)).getD q 0 ↔ m.ord j < q) ∧
+       ((m.row (m.lvl i)).getD q 0 < m.peerCoord j ↔ q < m.ord j) ∧
+       (m.peerCoord j ≤ (m.row (m.lvl i)).getD q 0 ↔ m.ord j ≤ q) ∧
+       ((m.row (m.lvl i)).getD q 0 ≤ m.peerCoord j ↔ q ≤ m.ord j)) := by
+    intro j hj hjl q hq
+    have hpj := hw.ord_lt j hj
+    rw [hjl] at hpj
+    simp only [St.peerCoord, hjl]
+    rw [getD_eq_get _ _ hpj, getD_eq_get _ _ hq]
+    have hlt : ∀ a b (ha : a < (m.row (m.lvl i)).length) (hb : b < (m.row (m.lvl i)).length),
+        ((m.row (m.lvl i))[a] < (m.row (m.lvl i))[b] ↔ a < b) := by
+      intro a b ha hb
+      constructor
+      · intro h'
+        apply Classical.byContradiction
+        intro hn'
+        exact absurd h' (Rat.not_lt.mpr (pairwise_le_get (hs _) hb ha (by omega)))
+      · exact pairwise_lt_get (hs _) ha hb
+    refine ⟨hlt _ _ hpj hq, hlt _ _ hq hpj, ?_, ?_⟩
+    · rw [← Rat.not_lt, hlt _ _ hq hpj]; omega
+    · rw [← Rat.not_lt, hlt _ _ hpj hq]; omega
+  have hci : m.peerCoord i = (m.row (m.lvl i)).getD (m.ord i) 0 := rfl
+  refine ⟨m', h, hw', hb', hs', hrow, ?_, ?_, ?_⟩
+  · intro a b ha hb'' hab
+    exact ⟨rank_geometric hw hs ha hb'' hab,
+      rank_geometric hw' hs' (hn ▸ ha) (hn ▸ hb'') (by rw [hlvl, hlvl]; exact hab)⟩
+  · intro hk
+    obtain ⟨h1, h2⟩ := hR hk
+    have htq : m.ord i + min k.natAbs ((m.row (m.lvl i)).length - (m.ord i + 1)) < (m.row (m.lvl i)).length := by
+      omega
+    refine ⟨by rw [hpc, h1], ?_⟩
+    intro j hj hjl
+    obtain ⟨c1, c2, c3, c4⟩ := hcmp j hj hjl _ htq
+    obtain ⟨d1, d2, _, _⟩ := hcmp j hj hjl _ hp
+    obtain ⟨g1, g2⟩ := h2 j hj hjl
+    constructor
+    · intro ha hb''
+      rw [hci] at ha
+      rw [hpc, g1 (d2.mp ha) (c3.mp hb''), hjl]
+    · intro hor
+      rw [hpc, g2 (hor.imp (fun ha => by rw [hci] at ha; exact d1.mp ha) (fun hb'' => c2.mp hb'')), hjl]
+      simp only [St.peerCoord, hjl]
+  · intro hk
+    obtain ⟨h1, h2⟩ := hL hk
+    have htq : m.ord i - min k.natAbs (m.ord i) < (m.row (m.lvl i)).length := by omega
+    refine ⟨by rw [hpc, h1], ?_⟩
+    intro j hj hjl
+    obtain ⟨c1, c2, c3, c4⟩ := hcmp j hj hjl _ htq
+    obtain ⟨d1, d2, _, _⟩ := hcmp j hj hjl _ hp
+    obtain ⟨g1, g2⟩ := h2 j hj hjl
+    constructor
+    · intro ha hb''
+      rw [hci] at hb''
+      rw [hpc, g1 (c4.mp ha) (d1.mp hb''), hjl]
+    · intro hor
+      rw [hpc, g2 (hor.imp (fun ha => c1.mp ha) (fun hb'' => by rw [hci] at hb''; exact d2.mp hb'')), hjl]
+      simp only [St.peerCoord, hjl]
+
 /-! ### non-vacuity -/
 
 private def exPos : List (Rat × Rat) := [(0, 1), (1/2, 0), (-1/2, 0), (3/2, 0), (0, -1)]
@@ -352,5 +484,12 @@ example :
        && (match swapNodes m 1 3 with
            | .ok _ => true
            | .error _ => false)) = true := by decide +kernel
+
+/-- the 5-node diagram has pairwise distinct positions, so `mover_sorted_invariant` applies to it -/
+example : exPos ≠ [] ∧ exPos.Nodup ∧ ∃ m, setPos .v exPos = .ok m ∧ WF m ∧ Bij m ∧ Sorted m := by
+  have h1 : exPos ≠ [] := by decide
+  have h2 : exPos.Nodup := by decide +kernel
+  obtain ⟨m, hm, hw, hb, hs, _⟩ := mover_sorted_invariant.1 .v exPos h1 h2
+  exact ⟨h1, h2, m, hm, hw, hb, hs⟩
 
 end Fca.C19
